@@ -3,9 +3,13 @@
 (* of the evidence lattice (records 2 .. 11 665, in the mixed-radix order decoded by Idx), chains  *)
 (* of growing concrete evidence with other representatives, and the to_code / from_code tables.   *)
 (* The laws of Classify.tla (Complete, Sound, Monotone) are evaluated ON THE LOGGED TABLE.        *)
+(* "dtx" records: classify_decrypted_tx on assembled v6 transactions -- the evidence a decrypted    *)
+(* transaction provides is assembled HERE from the logged projection of the transaction.          *)
 EXTENDS Integers, Json, IOUtils, Classify
 VARIABLES l
 Rec == ndJsonDeserialize(IOEnv.TRACE)
+\* heights (the expiry) are logged as h - 2^31, as in Trace_Scheduling
+S == INSTANCE Scheduling WITH Lo <- -2147483647 - 1, Hi <- 2147483647, ExpMod <- 34560, ExpWin <- 69120, AgeCap <- 4
 
 \* -- abstraction of logged (concrete) evidence; counts: -1 = unanswered; tri-state: 0 = unanswered,
 \*    1 = true, 2 = false; the value as decimal digits
@@ -52,6 +56,22 @@ ChainOK(rec) == LET n == Len(rec.pts) IN
     /\ \A i \in 1..(n - 1) : /\ CLeq(rec.pts[i], rec.pts[i + 1])
                              /\ rec.pts[i].r # "U" => rec.pts[i + 1].r = rec.pts[i].r
 
+\* Evidence from a decrypted transaction (zcash_client_backend::data_api::zip318): source = number
+\* of Orchard actions (0 without a bundle), destination = number of Ironwood actions, another bundle
+\* is present iff the transparent or the Sapling part is non-empty, send-to-self iff the wallet
+\* decrypted some account-internal Orchard output and no other kind, the sole destination value
+\* is answered iff exactly one Ironwood output was decrypted, the expiry is judged by the
+\* height-independent test, and neither confirmatory clause is answered.
+DtxPoint(r) ==
+    [src |-> ASrc(r.src), dst |-> ADst(r.dst),
+     ob  |-> IF r.tpin + r.tpout > 0 \/ r.ssp + r.sout > 0 THEN "t" ELSE "f",
+     sts |-> IF (\E i \in 1..Len(r.oouts) : r.oouts[i] = "int") /\ (\A i \in 1..Len(r.oouts) : r.oouts[i] = "int")
+             THEN "t" ELSE "f",
+     val |-> IF Len(r.ivals) # 1 THEN "none" ELSE IF CanonDigits(r.ivals[1]) THEN "canon" ELSE "noncanon",
+     exp |-> IF S!CanonicalExpiryValue(r.expiry) THEN "t" ELSE "f",
+     aog |-> "none", fee |-> "none"]
+DtxOK(r) == r.oc = "ok" /\ PointOK(DtxPoint(r), r.r)
+
 \* the persisted encoding: decode o encode = id, encode injective, Unknown is 0 (the column
 \* default), every other code decodes to the label that encodes to it, or to Unknown
 CodesOK(rec) ==
@@ -71,7 +91,8 @@ TCodes == IsEvent("codes") /\ l = 1 /\ CodesOK(Rec[l])
 TPt    == IsEvent("pt") /\ PtOK(l)
 TChain == IsEvent("chain") /\ l > TBase + TableSize /\ ChainOK(Rec[l])
 TraceInit == l = 1
-TraceNext == TCodes \/ TPt \/ TChain
+TDtx   == IsEvent("dtx") /\ l > TBase + TableSize /\ DtxOK(Rec[l])
+TraceNext == TCodes \/ TPt \/ TChain \/ TDtx
 TraceSpec == TraceInit /\ [][TraceNext]_l
 Accepted == LET n == TLCGet("stats").diameter - 1
             IN  IF n = Len(Rec) /\ n > TBase + TableSize THEN PrintT(<< "TRACE", "accepted", n >>)
